@@ -153,6 +153,29 @@ pub fn cases() -> Vec<Case> {
     out
 }
 
+/// Registrations with arguments outside every documented domain (precedence 0, negative,
+/// beyond 10^9, i32 extremes). What such a call itself does is not specified — it may
+/// succeed, fail or panic — but evaluation of built-in expressions afterwards is still
+/// covered by the property: Ok or Err, never a panic (a registry left poisoned or half
+/// updated by the odd call shows here).
+const ODD_PRECEDENCES: &[i32] = &[0, -1, -110, i32::MIN, i32::MAX, 1 << 30, 1_000_000_001, 1_073_741_824];
+
+fn odd_registration(i: u64) -> String {
+    use expression_engine::{InfixOpAssociativity, InfixOpType};
+    use std::sync::Arc;
+    let p = ODD_PRECEDENCES[(i as usize) % ODD_PRECEDENCES.len()];
+    let left = (i as usize / ODD_PRECEDENCES.len()) % 2 == 0;
+    let r = crate::engine::guarded(|| {
+        expression_engine::register_infix_op("zzodd", p, InfixOpType::CALC, if left { InfixOpAssociativity::LEFT } else { InfixOpAssociativity::RIGHT }, Arc::new(|a, _| Ok(a)));
+        Ok(())
+    });
+    format!("register_infix_op(zzodd, {}, {}) -> {}", p, if left { "LEFT" } else { "RIGHT" }, r.class())
+}
+
+fn n_odd() -> u64 {
+    2 * ODD_PRECEDENCES.len() as u64
+}
+
 impl Prop for C04 {
     fn id(&self) -> &'static str {
         "C04"
@@ -167,7 +190,12 @@ impl Prop for C04 {
             what: format!("the fault product evaluated in the {} build", name),
         };
         Plan {
-            stages: vec![st("release"), st("dev")],
+            stages: vec![
+                st("release"),
+                st("dev"),
+                Stage { name: "release-after-odd-registration".into(), len: n_odd(), chunk: 1, timeout: Duration::from_secs(300), what: "fresh process: one register_infix_op call with a precedence outside the documented domain (0, negative, > 10^9, i32 extremes; the call itself may do anything), then every 97th case of the fault product".into() },
+                Stage { name: "dev-after-odd-registration".into(), len: n_odd(), chunk: 1, timeout: Duration::from_secs(300), what: "the same in the dev build".into() },
+            ],
             rule: "fault product: {/ % /= %=} x every spelling of zero; {+ - * / % and compound forms, ++ --, prefix -, sum mul min max} x operands within one step of Decimal::MAX/MIN and at 28-digit scale; \
                    {<< >> <<= >>=} x shift counts {-1,0,1,63,64,65,2^31,2^32-1,2^32,2^32+1,2^32+63,2^63-1,2^63,-2^63,2^64, fractional, scaled} x values {0,1,-1,i64::MIN,i64::MAX,2^62,2^63,...}; bit operators x non-integral / scaled / out-of-i64 operands; empty aggregates; every operator x every pair of V. \
                    Run in a release and in a dev build of the engine. Oracle: no unwind, and agreement with the reference evaluator whose arithmetic is checked and whose shifts require 0 <= count <= 63 (a wrapped or masked result is a value mismatch). distinct = distinct (operator, operand-class) key"
@@ -184,11 +212,26 @@ impl Prop for C04 {
     fn run(&self, _tier: Tier, stage: usize, a: u64, b: u64, out: &mut WorkerOut) {
         let world = World::builtin();
         let cs = cases();
-        let name = if stage == 0 { "release" } else { "dev" };
+        let name = ["release", "dev", "release-after-odd-registration", "dev-after-odd-registration"][stage];
         // make sure each binary really is what its stage claims
         let checks_on = cfg!(debug_assertions);
-        if (stage == 1) != checks_on {
+        if (stage % 2 == 1) != checks_on {
             out.fail("machinery:wrong-build-profile", format!("{}|profile", name), format!("stage {} ran in a binary with debug_assertions={}", name, checks_on));
+            return;
+        }
+        if stage >= 2 {
+            for i in a..b {
+                out.idx = Some(i);
+                let what = odd_registration(i);
+                out.sample(what.clone());
+                let stage_name = format!("{}[{}]", name, what);
+                for c in cs.iter().step_by(97) {
+                    run_case(c, &world, &stage_name, out);
+                }
+                out.nontrivial.insert(hash64(&what));
+                out.count("states", 1);
+                out.count("transitions", (cs.len() / 97) as u64);
+            }
             return;
         }
         for i in a..b {
@@ -203,7 +246,10 @@ impl Prop for C04 {
         out.count("states", b - a);
         out.count("transitions", b - a);
     }
-    fn case_text(&self, _tier: Tier, _stage: usize, i: u64) -> String {
+    fn case_text(&self, _tier: Tier, stage: usize, i: u64) -> String {
+        if stage >= 2 {
+            return format!("odd registration {}", i);
+        }
         let cs = cases();
         let c = &cs[i as usize];
         format!("{} with {}", c.program, c.bindings.iter().map(|(k, v)| format!("{}={}", k, show_value(v))).collect::<Vec<_>>().join(" "))
